@@ -21,7 +21,7 @@ BUDGET = {"quick": 200, "thorough": 900}
 RULE = ("2-4 actors (reused Parser, fresh Parsers, FiltersSet editor incl. extension-bound tags such as :regex/:count/:value/"
         ":copy/:create/:flags, reloader = parse, then - other actors' calls later - from_parser_result + render), histories of 4-30 whole public calls (one run in sixteen: a marathon of 40-100 mostly failing parses on one reused Parser), the "
         "interleaving drawn by the scheduler; scripts from a pool of valid scripts with different require sets, invalid "
-        "scripts of each error class, valid scripts truncated at a drawn byte (so that a parse ends mid-construct) and valid scripts with one tag replaced by a tag borrowed from another command. "
+        "scripts of each error class, valid scripts truncated at a drawn byte (so that a parse ends mid-construct) valid scripts with one tag replaced by a tag borrowed from another command, and valid scripts with one structural character removed. "
         "Baselines: each parse alone in a freshly forked pristine child; each editor/reloader history alone in a freshly "
         "forked pristine child. Non-trivial: at least two actors took turns and a failed/truncated parse or an extension-"
         "bound definition occurred. Distinct = (actor interleaving pattern, classes of scripts parsed).")
@@ -57,6 +57,10 @@ VALID = [
     'require ["imap4flags"];\nsetflag "\\\\Seen";\nkeep :flags "\\\\Flagged";\n',
     'require ["body"];\nif body :content "text" :contains "x" { discard; }\n',
     'require ["date"];\nif date :zone "+0100" :is "received" "year" "2020" { keep; }\n',
+    'require ["imap4flags", "fileinto"];\nif hasflag "\\\\Seen" { fileinto "S"; }\nif anyof (hasflag "x", not hasflag ["a", "b"]) { keep; }\n',
+    'require ["imap4flags"];\nif allof (hasflag :is "Var" ["f1", "f2"], true) { addflag "Var" "f3"; removeflag "f1"; }\n',
+    'require ["imap4flags"];\nif anyof (hasflag "x") { keep; }\nif hasflag "y" { discard; }\n',
+    'require ["imap4flags"];\nif hasflag "z" { keep; }\n',
 ]
 INVALID = [
     'if header :contains "Subject" "x" { fileinto "F"; }\n',          # extension not loaded
@@ -266,7 +270,16 @@ _TAG_RE = None
 
 def draw_script(wl, label, classes, marathon=False):
     global _TAG_RE
-    k = wl.weighted(label + ".class", [1, 1, 8, 1] if marathon else [4, 3, 3, 2])
+    k = wl.weighted(label + ".class", [1, 1, 8, 1, 1] if marathon else [4, 3, 3, 2, 2])
+    if k == 4:
+        # a valid script with one structural character removed: ) ( { } ; , [ ] or a quote
+        base = VALID[wl.int(label + ".valid", len(VALID))]
+        spots = [i for i, c in enumerate(base) if c in '(){};,[]"']
+        classes.add("char-dropped")
+        if not spots:
+            return base
+        i = spots[wl.int(label + ".spot", len(spots))]
+        return base[:i] + base[i + 1:]
     if k == 3:
         # a valid script with one tag replaced by a tag borrowed from another command: mostly invalid, sometimes valid,
         # always presenting a tag to a command that does not usually see it
@@ -394,7 +407,7 @@ def run(ch, config, res):
     res.count("steps", len(plan))
     pattern = "".join({"reused": "R", "fresh": "F", "reload-parse": "P", "reload-load": "L", "editor": "E"}[s[0]] for s in plan)
     turns = sum(1 for i in range(1, len(pattern)) if pattern[i] != pattern[i - 1])
-    if turns >= 1 and (classes & {"invalid", "truncated", "ext-bound-def", "tag-swapped"}):
+    if turns >= 1 and (classes & {"invalid", "truncated", "ext-bound-def", "tag-swapped", "char-dropped"}):
         res.sigs.add("%s|%s" % (pattern, ",".join(sorted(classes))))
     for c in classes:
         res.count("class:" + c)
